@@ -7,14 +7,36 @@
    sender steps (modify with any update or a no-op closure, drop) and receiver steps (recv
    loop, re-poll, cancel at the await point, try_recv, drop). *)
 From SV Require Import Base.Prelude Model.Sched Model.MergeChan Proofs.MergeChan_proofs Proofs.MergeChan_thms.
-From SV Require Import Model.MetaUpdate Proofs.MetaUpdate_proofs.
+From SV Require Import Model.MetaUpdate Proofs.MetaUpdate_proofs Model.ClusterLoop Proofs.ClusterLoop_proofs.
+From Coq Require Import Permutation.
 Open Scope N_scope.
 
-(* every update merged in so far is - in order, exactly once - in a value already returned by
-   recv/try_recv, or in the value being returned, or still in the slot *)
+(* CLOSURE CLASSES.  `modify` takes any closure; the model has the three classes CMerge x
+   (inflationary), CNoop, CClear (sets the slot to None: the producer retracts what is pending).
+   EVERY theorem of this file holds for schedules with all three classes, with the ghost
+   [merged s] read as "merged in and not retracted by the producer" (C19_clear_retracts says what a
+   clearing closure retracts); for schedules without CClear - the only ones the driver produces -
+   [merged s] is everything ever merged in (C19_inflationary). *)
+
+(* every update merged in (and not retracted) so far is - in order, exactly once - in a value
+   already returned by recv/try_recv, or in the value being returned, or still in the slot *)
 Theorem C19_no_loss_dup : forall s, reachable step init s ->
   delivered_values s ++ in_flight s ++ slot_list s = merged s.
 Proof. exact c19_no_loss_dup. Qed.
+
+(* with merging and no-op closures only: the values received ++ in flight ++ pending are exactly
+   the updates handed to the merging closures along the schedule, in order *)
+Theorem C19_inflationary : forall ls s, run step init ls = Some s -> no_clear ls = true ->
+  delivered_values s ++ in_flight s ++ slot_list s = merged_labels ls.
+Proof. exact c19_inflationary. Qed.
+
+(* a clearing closure retracts exactly the content of the slot: nothing delivered or in flight
+   is touched, no notification is issued, modify returns Ok *)
+Theorem C19_clear_retracts : forall s s', reachable step init s -> step s (SMerge CClear) = Some s' ->
+  slot s' = None /\ merged s' ++ slot_list s = merged s /\ delivered s' = delivered s /\
+  in_flight s' = in_flight s /\ wakes s' = wakes s /\ permit s' = permit s /\ wtr s' = wtr s /\
+  s_pc s' = SIdle /\ send_results s' = send_results s ++ [true].
+Proof. exact c19_clear_retracts. Qed.
 
 (* no lost wake-up: a parked receiver has been notified AND its waker has been called whenever
    a value is pending or the sender is gone (and the sender is not just about to notify) *)
@@ -149,7 +171,40 @@ Theorem C19_model_status_ok : forall s,
   status_ok (model_status s) (N.of_nat (List.length (responses_slot (h_slot s)))) = true.
 Proof. exact model_status_ok. Qed.
 
+(* ---- the cluster worker's select loop (Model/ClusterLoop.v): use_keyspace requests and refresh
+   requests interleaved with the application of metadata updates, for every schedule ---- *)
+
+(* every use_keyspace request is in exactly one place - answered, in a spawned task, or queued -
+   and the refresh responses answered ++ being applied ++ attached to the slot are the requests
+   made, in order: no request of either kind is lost or answered twice *)
+Theorem C19_loop_inv : forall s, reachable wstep w_init s ->
+  Permutation (w_use_answered s ++ w_tasks s ++ w_inbox s) (w_use_requested s) /\
+  w_refresh_answered s ++ applying_responses s ++ responses_slot (w_slot s) = w_refresh_requested s.
+Proof. intros s H. destruct (winv_reachable s H) as [A B]. split; assumption. Qed.
+
+(* no deadlock: while anything is owed a worker/task step is enabled, every such step strictly
+   decreases what is owed, and when nothing is owed every request has been answered exactly once *)
+Theorem C19_loop_enabled : forall s, (0 < owed s)%nat ->
+  exists lb s', is_worker_label lb = true /\ wstep s lb = Some s'.
+Proof. exact worker_enabled. Qed.
+Theorem C19_loop_decreases : forall s lb s', is_worker_label lb = true -> wstep s lb = Some s' ->
+  (owed s' < owed s)%nat.
+Proof. exact worker_step_decreases. Qed.
+Theorem C19_loop_all_answered : forall s, reachable wstep w_init s -> owed s = O ->
+  Permutation (w_use_answered s) (w_use_requested s) /\ w_refresh_answered s = w_refresh_requested s.
+Proof. exact all_answered. Qed.
+
 (* non-vacuity *)
+(* requests of both kinds queue up while an update is applied and are all answered afterwards *)
+Example C19_ex_loop :
+  option_map (fun s => (w_use_answered s, w_refresh_answered s, w_published s, w_used_ks s, owed s))
+    (run wstep w_init [LMerge (MFull true false); LSelectUpdate; LReqUse 7; LMerge (MFull true false); LReqUse 8;
+                       LMerge MTopology; LMerge (MFull true true); LFinishApply; LSelectUse; LSelectUse;
+                       LSelectUpdate; LTaskDone 8; LFinishApply; LTaskDone 7])
+  = Some ([8; 7], [1; 2; 4], Some 4, Some 8, O) /\
+  run wstep w_init [LSelectUse] = None /\ run wstep w_init [LMerge MTake] = None /\
+  run wstep w_init [LReqUse 1; LSelectUse; LTaskDone 2] = None.
+Proof. repeat split; vm_compute; reflexivity. Qed.
 (* two refreshes fetched back to back while the consumer is busy: both response channels are in
    the slot, a topology fetch overwrites only the peer list, the take answers both *)
 Example C19_ex_refresh_merge :
@@ -175,7 +230,7 @@ Proof. repeat split; vm_compute; reflexivity. Qed.
    sets the flag and notifies; the re-check still delivers the last update, then None *)
 Example C19_ex_last_update :
   option_map (fun s => (delivered s, slot s, r_pc s))
-    (run step init [RStart; RTake; SCheck; SMerge (Some 7); SNotify; SDropFlag; SDropNotify;
+    (run step init [RStart; RTake; SCheck; SMerge (CMerge 7); SNotify; SDropFlag; SDropNotify;
                     RCheckDropped; RRetake; RDropFut; RStart; RTake; RCheckDropped; RRetake; RDropFut])
   = Some ([RecvRet (Some [7]); RecvRet None], None, RIdle).
 Proof. vm_compute. reflexivity. Qed.
@@ -187,9 +242,22 @@ Example C19_ex_cancel :
           (ObsPoll (Ready None), 2%nat); (ObsUnit, 2%nat)].
 Proof. vm_compute. reflexivity. Qed.
 Example C19_ex_parked_state :
-  exists s, run step init [RStart; RTake; RCheckDropped; RPollNotified; SCheck; SMerge (Some 3); SNotify] = Some s /\
+  exists s, run step init [RStart; RTake; RCheckDropped; RPollNotified; SCheck; SMerge (CMerge 3); SNotify] = Some s /\
             r_pc s = RParked /\ slot s = Some [3] /\ s_pc s = SIdle /\ wtr s = Notified /\ wakes s = 1%nat.
 Proof. eexists. split; [vm_compute; reflexivity|]. repeat split. Qed.
+(* a retraction: the parked receiver was woken for [1;2], the producer clears, the poll finds
+   nothing and parks again; a later merge is delivered alone; try_recv takes without waiting *)
+Example C19_ex_clear :
+  run_ops [OPoll; OMerge 1; OMerge 2; OClear; OPoll; OMerge 3; OPoll; OMerge 4; OTry; OTry] init
+  = Some [(ObsPoll Pending, 0%nat); (ObsSend true, 1%nat); (ObsSend true, 1%nat); (ObsSend true, 1%nat);
+          (ObsPoll Pending, 1%nat); (ObsSend true, 2%nat); (ObsPoll (Ready (Some [3])), 2%nat);
+          (ObsSend true, 2%nat); (ObsTry (Some [4]), 2%nat); (ObsTry None, 2%nat)] /\
+  no_clear [SCheck; SMerge (CMerge 1); SNotify; SCheck; SMerge CNoop; SNotify] = true /\
+  no_clear [SCheck; SMerge CClear] = false /\
+  merged_labels [SCheck; SMerge (CMerge 1); SNotify; SCheck; SMerge CNoop; SNotify; SCheck; SMerge (CMerge 5)] = [1; 5] /\
+  option_map merged (run step init [SCheck; SMerge (CMerge 1); SNotify; SCheck; SMerge (CMerge 2); SNotify;
+                                    RStart; RTake; SCheck; SMerge (CMerge 3); SNotify; SCheck; SMerge CClear]) = Some [1; 2].
+Proof. repeat split; vm_compute; reflexivity. Qed.
 Example C19_ex_send_err :
   run_ops [OMerge 1; ODropReceiver; OMerge 2; ONoop] init
   = Some [(ObsSend true, 0%nat); (ObsUnit, 0%nat); (ObsSend false, 0%nat); (ObsSend false, 0%nat)].
@@ -210,6 +278,8 @@ Example C19_ex_spec_rejects :
 Proof. repeat split; vm_compute; reflexivity. Qed.
 
 Print Assumptions C19_no_loss_dup.
+Print Assumptions C19_inflationary.
+Print Assumptions C19_clear_retracts.
 Print Assumptions C19_no_lost_wakeup.
 Print Assumptions C19_last_update.
 Print Assumptions C19_send_err_only_if.
@@ -228,3 +298,7 @@ Print Assumptions C19_take_answers_all.
 Print Assumptions C19_latest_topology.
 Print Assumptions C19_status_ok_sound.
 Print Assumptions C19_model_status_ok.
+Print Assumptions C19_loop_inv.
+Print Assumptions C19_loop_enabled.
+Print Assumptions C19_loop_decreases.
+Print Assumptions C19_loop_all_answered.
